@@ -151,8 +151,9 @@ let run_script (toks : string list) : string =
      | ["X"; "garbage"] | ["X"; "rderr"] -> if running () then apply (DrvEnd EndedErr)
      | ["X"; "wrerr"] -> wr_armed := true
      | ["H"] -> main_dropped := true
+     | ["T"; _; _] when !main_dropped -> ()      (* the hook is reached through the caller's own handle *)
      | ["T"; l; ids] ->      (* hook verif_set_id_table: positions the allocator (simulates a counter that has come round) *)
-         st := { !st with last0 = z_of_decimal l; inuse = (if ids = "~" then [] else List.map z_of_decimal (String.split_on_char ',' ids)) }
+         st := { !st with last0 = z_of_decimal l; inuse = (if ids = "~" then [] else if ids = "=" then (!st).inuse else List.map z_of_decimal (String.split_on_char ',' ids)) }
      | _ -> failwith ("step " ^ tok));
     settle ();
     Buffer.add_string out "| "; Buffer.add_string out (observe ()); Buffer.add_char out ' ') toks;
